@@ -441,6 +441,9 @@ func (w *ammWorld) policy() {
 		if rng.Bool() {
 			dm = new(big.Int).Set(pow18)
 		}
+		if rng.Chance(1, 4) {
+			dm = big.NewInt(0) // only the pools listed in the period earn depth rewards
+		}
 		def := decRaw(dm)
 		period := &clptypes.RewardPeriod{RewardPeriodId: "rp", RewardPeriodStartBlock: start, RewardPeriodEndBlock: stop, RewardPeriodAllocation: &sdk.Uint{}, RewardPeriodDefaultMultiplier: &def, RewardPeriodDistribute: dist, RewardPeriodMod: mod}
 		a := uintOf(alloc)
@@ -747,8 +750,77 @@ func (w *ammWorld) opEpoch() {
 	w.hook("epoch", "epoch", func() { w.app.ClpKeeper.AfterEpochEnd(w.ctx, "hour", 1) })
 }
 
+// splitProbe records, for Spec.C18.splitObservedOK, the configured weight of every pool (multiplier of the
+// stored reward period × native balance) before an EndBlocker and what the block added to the pool's
+// per-period reward counter.
+func (w *ammWorld) splitProbe() func() {
+	k := w.app.ClpKeeper
+	rp := k.GetRewardsParams(w.ctx)
+	if len(rp.RewardPeriods) == 0 {
+		return func() {}
+	}
+	per := rp.RewardPeriods[0]
+	h := uint64(w.height)
+	if h < per.RewardPeriodStartBlock || h > per.RewardPeriodEndBlock || per.RewardPeriodDefaultMultiplier == nil {
+		return func() {}
+	}
+	pools := k.GetPools(w.ctx)
+	sort.Slice(pools, func(i, j int) bool { return pools[i].ExternalAsset.Symbol < pools[j].ExternalAsset.Symbol })
+	type pw struct {
+		sym      string
+		weight   *big.Int
+		pre      *big.Int
+	}
+	var l []pw
+	for _, p := range pools {
+		m := per.RewardPeriodDefaultMultiplier.BigInt()
+		for _, pm := range per.RewardPeriodPoolMultipliers {
+			if pm.PoolMultiplierAsset == p.ExternalAsset.Symbol && pm.Multiplier != nil {
+				m = pm.Multiplier.BigInt()
+				break
+			}
+		}
+		if m.Sign() < 0 {
+			return func() {}
+		}
+		l = append(l, pw{p.ExternalAsset.Symbol, new(big.Int).Mul(m, p.NativeAssetBalance.BigInt()), p.RewardPeriodNativeDistributed.BigInt()})
+	}
+	return func() {
+		if w.halted {
+			return
+		}
+		var sb strings.Builder
+		reset := false
+		post := make([]*big.Int, len(l))
+		for i, e := range l {
+			p := w.pool(e.sym)
+			if p == nil {
+				return
+			}
+			post[i] = p.RewardPeriodNativeDistributed.BigInt()
+			if post[i].Cmp(e.pre) < 0 {
+				reset = true // the counters were reset at the period start
+			}
+		}
+		any := false
+		for i, e := range l {
+			r := new(big.Int).Set(post[i])
+			if !reset {
+				r.Sub(r, e.pre)
+			}
+			if r.Sign() != 0 {
+				any = true
+			}
+			fmt.Fprintf(&sb, " %s %s", e.weight, r)
+		}
+		w.out.Emit("chk c18.l1split tag=endblock.split"+sb.String(), "true", "chk.l1split", any)
+	}
+}
+
 func (w *ammWorld) opEndBlock() {
+	done := w.splitProbe()
 	w.hook("endblock", "endblock", func() { clp.EndBlocker(w.ctx, w.app.ClpKeeper) })
+	done()
 	if !w.halted {
 		w.setHeight(w.height + 1)
 	}
@@ -867,6 +939,26 @@ func init() {
 			}
 			w.opCreate(w.users[0], "cusdc", e18(10), e18(10))
 			for i := 0; i < 8 && !w.halted; i++ {
+				w.opEndBlock()
+			}
+		}
+		// D8: default multiplier 0 — only the pool listed in the period earns depth rewards; the unlisted pool
+		// is three times as deep
+		for _, dist := range []bool{false, true} {
+			w := newAmmWorld(rng, out, 3, -1)
+			w.fundAll()
+			w.opCreate(w.users[0], "cusdc", e18(1000), e18(1000))
+			w.opCreate(w.users[1], "ceth", e18(3000), e18(3000))
+			def := sdk.ZeroDec()
+			one := sdk.OneDec()
+			a := sdk.NewUint(40000000)
+			per := &clptypes.RewardPeriod{RewardPeriodId: "rp", RewardPeriodStartBlock: 1, RewardPeriodEndBlock: 10, RewardPeriodAllocation: &a, RewardPeriodDefaultMultiplier: &def, RewardPeriodDistribute: dist, RewardPeriodMod: 1,
+				RewardPeriodPoolMultipliers: []*clptypes.PoolMultiplier{{PoolMultiplierAsset: "cusdc", Multiplier: &one}}}
+			p := w.app.ClpKeeper.GetRewardsParams(w.ctx)
+			p.RewardPeriods = []*clptypes.RewardPeriod{per}
+			w.app.ClpKeeper.SetRewardParams(w.ctx, p)
+			w.cfg("rewardperiod 1 10 40000000 1 " + b2s(dist) + " 0 cusdc 1000000000000000000")
+			for i := 0; i < 4 && !w.halted; i++ {
 				w.opEndBlock()
 			}
 		}
